@@ -2,6 +2,8 @@ package main
 
 import (
 	"fmt"
+
+	"golang.org/x/tools/go/ssa"
 	"go/token"
 	"go/types"
 	"strings"
@@ -38,6 +40,7 @@ func init() {
 		"(encoding/binary.bigEndian).PutUint16":    func(x *Exec, st *State, a []*Val, s *types.Signature, p token.Pos) *Val { return x.mPutUint(st, a[1], a[2], 2, p) },
 		"(encoding/binary.bigEndian).PutUint32":    func(x *Exec, st *State, a []*Val, s *types.Signature, p token.Pos) *Val { return x.mPutUint(st, a[1], a[2], 4, p) },
 		"(encoding/binary.bigEndian).PutUint64":    func(x *Exec, st *State, a []*Val, s *types.Signature, p token.Pos) *Val { return x.mPutUint(st, a[1], a[2], 8, p) },
+		"(*sync.Once).Do":                          mOnceDo,
 		"(*sync.Mutex).Lock":                       mLock,
 		"(*sync.Mutex).Unlock":                     mUnlock,
 		"(*sync.RWMutex).Lock":                     mLock,
@@ -529,4 +532,55 @@ func mSerializeBytes(x *Exec, st *State, a []*Val, s *types.Signature, p token.P
 	n := sel(x.use(lh), B)
 	x.sc.assume(implies(x.guard(st), and(x.sc.iLe(x.sc.iConst(0), n), x.sc.iLe(n, x.sc.iConst(1<<20)))))
 	return &Val{K: KSlice, T: s.Results().At(0).Type(), E: []*Val{scalar(nil, B, "Int"), scalar(nil, x.sc.iConst(0), I), scalar(nil, n, I), scalar(nil, n, I)}}
+}
+
+// ---- sync.Once ----
+// A done bit per (object, field). Do(f) runs f exactly when the bit is clear and sets it (one atomic
+// step in the single-goroutine view; concurrent callers are serialised by the real Once).
+
+func (x *Exec) onceComp(st *State, p *Ptr) (*HeapSym, string, compInfo) {
+	key := "O|" + typeKey(p.Root) + "|" + pathString(p.Root, p.Path)
+	ci := compInfo{sort: "(Array Int Bool)"}
+	x.keyInfo[key] = ci
+	return x.heapSym(st, key, ci), key, ci
+}
+
+func mOnceDo(x *Exec, st *State, a []*Val, s *types.Signature, p token.Pos) *Val {
+	m, fv := a[0], a[1]
+	if m.K != KPtr || m.P.Kind != PHeap {
+		panic(unsupported("sync.Once that is not a field of a heap object"))
+	}
+	if fv.K != KFunc || fv.Fn == nil || fv.Fn.Fn == nil {
+		panic(unsupported("sync.Once.Do of a function that is not statically known"))
+	}
+	h, key, ci := x.onceComp(st, m.P)
+	arr := x.use(h)
+	done := x.sc.defineB(x, "oncedone", "Bool", sel(arr, m.P.Ref))
+	s2 := st.clone()
+	s2.pc = and(st.pc, not(done))
+	x.setHeap(s2, key, ci, sto(arr, m.P.Ref, "true"))
+	// a method value (pConn.method): the bound receiver is the only argument
+	var cargs []*Val
+	cb := fv.Fn.Bindings
+	target := fv.Fn.Fn
+	if strings.HasSuffix(target.Name(), "$bound") && len(cb) == 1 {
+		// the synthetic wrapper of a method value calls the method on its one free variable
+		for _, b := range target.Blocks {
+			for _, ins := range b.Instrs {
+				if c, ok := ins.(ssa.CallInstruction); ok && c.Common().StaticCallee() != nil {
+					target = c.Common().StaticCallee()
+				}
+			}
+		}
+		cargs, cb = cb, nil
+	} else if target.Signature.Recv() != nil && len(cb) == 1 {
+		cargs, cb = cb, nil
+	}
+	x.callStatic(target, cargs, cb, s2, p)
+	s3 := st.clone()
+	s3.pc = and(st.pc, done)
+	mg := x.mergeStates([]string{s2.pc, s3.pc}, []*State{s2, s3})
+	mg.defers = st.defers
+	*st = *mg
+	return nil
 }
